@@ -252,9 +252,9 @@ def shards(tier):
     parts = 2 if quick else 16
     for p in range(parts):
         out.append({'mode': 'enumerate', 'maxlen': 2 if quick else 3, 'part': p, 'parts': parts})
-    for mode, n, ex in (('alone', 3, 400), ('position', 9, 500), ('cond', 2, 300)):
+    for mode, n, ex in (('alone', 3, 1000), ('position', 9, 1200), ('cond', 2, 800)):
         for i in range(n if quick else n * 3):
-            out.append({'mode': mode, 'examples': ex if quick else ex * 5, 'max_leaves': 3 + i % 3})
+            out.append({'mode': mode, 'examples': ex if quick else ex * 8, 'max_leaves': 3 + i % 3})
     return out
 
 
